@@ -70,6 +70,23 @@ func init() {
 			}
 			acc = v
 		}
+		// A container result is always a fresh container in gojq (funcAdd copies the first array/object it meets), while
+		// `null + x` hands x itself back; with a single non-null element the fold above would return the element itself, and a
+		// path expression such as `add(.) |= f` would then be located at the element by coincidence of identity. Whether a
+		// builtin returns its input or a copy is not specified (see distinctButEqual), so the model returns a copy and
+		// identical() leaves the case undecided.
+		switch x := acc.(type) {
+		case []any:
+			c := make([]any, len(x))
+			copy(c, x)
+			acc = c
+		case map[string]any:
+			c := make(map[string]any, len(x))
+			for k, v := range x {
+				c[k] = v
+			}
+			acc = c
+		}
 		return acc, nil
 	})
 	reg("tostring/0", func(in any, _ []any) (any, error) { return ToString(in) })
